@@ -78,12 +78,25 @@ def observe (s : St) (id : Nat) (t : Trie) : String :=
   let it :=
     if resolvesFast (getChain s id) t.tree then fmtPairs (iterate t.tree []) else "!unresolved"
   let ch := sortStr (t.cc.getChanges.map (fun c =>
-    hex c.new.key ++ (match c.old with | some o => "<" ++ hex o.key | none => "")))
-  let dl := sortStr (t.cc.getDeletes.map (fun d => hex d.key))
+    hex (c.new.key sha3) ++ (match c.old with | some o => "<" ++ hex (o.key sha3) | none => "")))
+  let dl := sortStr (t.cc.getDeletes.map (fun d => hex (d.key sha3)))
   let cur := sortStr (t.db.current.map (fun e => hex e.1))
   let gone := sortStr (t.db.deleted.map hex)
   "ok root=" ++ rootStr t.root ++ " iter=" ++ it ++ " changes=" ++ ",".intercalate ch ++ " deletes=" ++ ",".intercalate dl
     ++ " cur=" ++ ",".intercalate cur ++ " gone=" ++ ",".intercalate gone
+
+/-- the replay order of a merge (see `adversarialOrder` in go/harness/mptstore.go): if some key is both the New of one
+    change and the Old of another, creations of such keys first, then the rest, by New key within a rank; otherwise
+    the collector's own order (the outcome does not depend on it) -/
+def mergeOrder (cs : List (Change Ref)) : List (Change Ref) :=
+  let olds := cs.filterMap (fun c => c.old.map (fun o => o.key sha3))
+  let keyed := cs.map (fun c => (c.new.key sha3, c))
+  if keyed.any (fun e => olds.contains e.1) then
+    let rank0 := keyed.filter (fun e => olds.contains e.1)
+    let rank1 := keyed.filter (fun e => !olds.contains e.1)
+    let srt := fun (l : List (Bytes × Change Ref)) => (l.toArray.qsort (fun a b => hex a.1 < hex b.1)).toList
+    (srt rank0 ++ srt rank1).map (·.2)
+  else cs
 
 def lastSaved (s : St) : Bytes × Node :=
   match s.saved.getLast? with
@@ -147,7 +160,7 @@ def step (s : St) (w : List String) : St × String :=
       if id = 0 then (s, "bad-op") else
       match findTrie s pid with
       | some (_, p) =>
-        match mergeMPTChanges sha3 p c with
+        match mergeMPTChangesOrd sha3 p c (mergeOrder c.cc.getChanges) with
         | .ok p' => (closeTrie (setTrie s pid p') id, "ok " ++ rootStr p'.root)
         | .stale => (s, "stale")
       | none => (s, "bad-op")
